@@ -291,7 +291,7 @@ def build(case):
 
 def num(x):
     x = float(x)
-    return str(int(x)) if x == int(x) and abs(x) < 1e9 else repr(x)
+    return str(int(x)) if abs(x) < 1e9 and x == int(x) else repr(x)
 
 
 def show_rows(a):
